@@ -339,7 +339,7 @@ Proof.
   destruct (negb (ver_known ver)); [discriminate|].
   destruct (bytes_eqb (e_type e) m_room_member).
   - destruct (membership_of e) as [ms|]; [|discriminate].
-    destruct (if bytes_eqb ms k_join then match mxid_mapping e with MErr => None | MServers l => Some (Some l) end else Some None)
+    destruct (if bytes_eqb ms k_join then match mapping_server e with None => None | Some d => Some (Some [d]) end else Some None)
       as [asked|]; [|discriminate].
     destruct (negb match asked with Some l => negb verr && forallb valid l | None => true end); [discriminate|].
     destruct (needed_member_pseudoid ver e); [|discriminate].
@@ -365,16 +365,23 @@ Proof.
   apply andb_true_iff in H as [_ H]. apply andb_true_iff in H as [H _]. exact H.
 Qed.
 
-Lemma pseudoid_join_mapping_signers_must_verify ver j e valid self_valid verr :
+Lemma pseudoid_join_mapping_must_verify ver j e valid self_valid verr :
   verify_event_pseudoid ver j valid self_valid verr = true ->
   read_event j = Some e -> e_type e = m_room_member -> membership_of e = Some k_join ->
-  verr = false /\ exists l, mxid_mapping e = MServers l /\ forall s, In s l -> valid s = true.
+  verr = false /\
+  exists u l d, mxid_mapping e = MMapping (e_sender e) u /\ Ident.Ids.user_id_parse true u = Some (l, d) /\
+                valid d = true.
 Proof.
   unfold verify_event_pseudoid, pseudoid_trace. intros H Hr Ht Hm. rewrite Hr in H.
   destruct (negb (ver_known ver)); [discriminate|].
   rewrite Ht, bytes_eqb_refl, Hm, bytes_eqb_refl in H.
-  destruct (mxid_mapping e) as [|l]; [discriminate|].
-  destruct (negb verr && forallb valid l) eqn:E; [|discriminate].
+  unfold mapping_server in H.
+  destruct (mxid_mapping e) as [|k u] eqn:Em; [discriminate|].
+  destruct (bytes_eqb k (e_sender e)) eqn:Ek; [|discriminate].
+  apply bytes_eqb_eq in Ek. subst k.
+  destruct (Ident.Ids.user_id_parse true u) as [[l d]|] eqn:Eu; [|discriminate].
+  destruct (negb verr && forallb valid [d]) eqn:E; [|discriminate].
   apply andb_true_iff in E as [E1 E2]. apply negb_true_iff in E1. split; [exact E1|].
-  exists l. split; [reflexivity|]. apply forallb_forall. exact E2.
+  exists u, l, d. split; [reflexivity|]. split; [exact Eu|].
+  simpl in E2. apply andb_true_iff in E2 as [E2 _]. exact E2.
 Qed.
